@@ -89,7 +89,7 @@ def _s_anc(self, pool, rng):
         return None
     T = [n for n in xo.NAMES if rng.random() < 0.8]
     A = [n for n in T if rng.random() < 0.5]
-    topo = rng.sample(xo.NAMES, 3)
+    topo = rng.sample(xo.NAMES, len(xo.NAMES))
     return {"ancestral_set": frozenset(V(n) for n in A), "subgraph_variables": frozenset(V(n) for n in T), "subgraph_probability": q,
             "graph_topo": [V(n) for n in topo]}
 
@@ -112,7 +112,7 @@ def _s_low(self, pool, rng):
     q = pool.gen(rng.randint(1, 3))
     if not xo.well_scoped(q):
         return None
-    topo = rng.sample(xo.NAMES, 3)
+    topo = rng.sample(xo.NAMES, len(xo.NAMES))
     return {"vertex": V(rng.choice(topo)), "graph_probability": q, "topo": [V(n) for n in topo]}
 
 
